@@ -22,7 +22,24 @@ E-grid, three sections, all complete constrained Cartesian products (nothing sam
   (nearest neighbour / all-to-all) x bath x bath mode x every direct constructor with the
   product of its options; the same reads, identities and secularisations as section "bath".
 
+* section "requests" (history on ONE built system): system x ordered pair (first request, second
+  request) of OpenSystem configurations (bath theories with their options; the two Lindblad
+  theories x secular for every projector set of the bound) x recalculate in {True, False} of the
+  second request (thorough: of both) x route of the second request (get_RelaxationTensor;
+  thorough also get_ReducedDensityMatrixPropagator -> its RelaxationTensor).  The tensor the
+  SECOND request returns has the properties of the options of THAT request: identities (site,
+  eigenbasis_of(H)), secular clause against a non-secular twin when it asked for secular
+  relaxation, kind and elements of what a single request with the same options gives on a
+  fresh system (class R); the tensor of the first request is left as it was.
+
 What is done with every tensor that can be built (the REAL objects, real basis contexts):
+  action     every time independent tensor, tensor form AND operator form (Redfield, Lindblad,
+             Foerster, combined): apply() on the complete matrix-unit basis |c><d| (created,
+             applied and read inside the context), copy=True and copy=False, in the contexts
+             {site, eb(H), eb(Xc)(, eb(Xr))}: R[a,b,c,d] := apply(|c><d|)[a,b] satisfies both
+             identities and equals the tensor of the same object read in the same context
+             (an operator form is converted there with convert_2_tensor after its apply()
+             calls) (class R).
   reads      data outside any context, inside eigenbasis_of(H), nested inside
              eigenbasis_of(H) > eigenbasis_of(Xr), after leaving, inside eigenbasis_of(Xr)
              (real symmetric operator unrelated to H) and eigenbasis_of(Xc) (complex Hermitian);
@@ -104,7 +121,7 @@ def _bath(sysd):
 def _system(sysd, with_bath=True):
     """Fresh real objects for every build (nothing is shared between builds)."""
     isolation.reset_manager()
-    ta = systems.time_axis(NT, DT)
+    ta = systems.time_axis(sysd.get("nt", NT), DT)
     n = sysd["n"]
     agg = systems.aggregate(_energies(n, sysd["en"]), _J(n, sysd["J"]),
                             _bath(sysd) if with_bath else None, ta if with_bath else None)
@@ -211,7 +228,7 @@ def _build(sysd, cfg):
     else:
         ta, agg = _system(sysd, with_bath=not lind)
         ham = agg.get_Hamiltonian()
-    cutoff = 0.5 * NT * DT if cfg.get("cutoff") else None
+    cutoff = 0.5 * sysd.get("nt", NT) * DT if cfg.get("cutoff") else None
     ccut = _ccut_internal() if cfg.get("ccut") else None
     if lind:
         sbi = _lindblad_sbi(ham.dim, cfg)
@@ -284,12 +301,14 @@ class _Acc:
     def __init__(self):
         self.viol = {}
         self.worst = {"trace": 0.0, "hermiticity": 0.0, "secular-kept": 0.0,
-                      "secular-zero": 0.0, "os-secular-kept": 0.0, "os-secular-zero": 0.0}
+                      "secular-zero": 0.0, "os-secular-kept": 0.0, "os-secular-zero": 0.0,
+                      "apply-vs-tensor": 0.0, "second-request-vs-single": 0.0}
         self.n = {"tensors": 0, "reads": 0, "secularisations": 0, "secular_nontrivial": 0,
-                  "refused_secular": 0, "elements": 0}
+                  "refused_secular": 0, "elements": 0, "applies": 0, "second_requests": 0}
         self.unbuildable = {}
         self.refused = {}
         self.label = ""
+        self.apply_on = True
         self.tier = "thorough"
         self.digest = []
 
@@ -445,10 +464,12 @@ def _clone(T, data):
     return c
 
 
-def _flow_tensor(acc, T, ham, variant):
+def _flow_tensor(acc, T, ham, variant, action=True):
     """Reads in every context + every secularisation, for a tensor in tensor form."""
     R0 = numpy.array(T.data, copy=True)
     ok_t, ok_h, site_sig = _ids(acc, R0, variant, "site")
+    if action:
+        _apply_check(acc, T, ham.dim, variant, "site", lambda: R0)
     sc0 = TI.scale(R0)
     acc.digest.append([variant, list(R0.shape), round(sc0, 12),
                        round(float(numpy.sum(numpy.abs(R0))), 10)])
@@ -460,6 +481,8 @@ def _flow_tensor(acc, T, ham, variant):
         with _ctx(ctx, ham):
             R = numpy.array(T.data, copy=True)
             okc = _ids(acc, R, variant, ctx, site_sig)
+            if action:
+                _apply_check(acc, T, ham.dim, variant, ctx, lambda: R)
             if ctx in SEC_CTX:
                 _secular_copies(acc, T, R, okc[:2], variant, ctx)
                 for impl, f, c in stale:
@@ -502,6 +525,11 @@ def _flow_operators(acc, sysd, cfg, T, ham, variant):
         else:
             B, hamB = _build(sysd, cfg)
         with _ctx(ctx, hamB):
+            def converted(B=B):
+                B.convert_2_tensor()
+                return numpy.array(B.data, copy=True)
+            # the operator form acts through apply() first, then the same object is converted
+            _apply_check(acc, B, hamB.dim, variant, ctx, converted)
             B.convert_2_tensor()
             if B.as_operators:
                 acc.add("convert/%s/still-operator-form" % variant,
@@ -519,7 +547,7 @@ def _flow_operators(acc, sysd, cfg, T, ham, variant):
             _secular_oracle(acc, pre, post, okp[:2], variant, impl + "[operator-form]", ctx)
         if ctx == "site":
             # the converted object is now an ordinary tensor: complete tensor flow
-            sc0 = _flow_tensor(acc, B, hamB, variant + ":converted")
+            sc0 = _flow_tensor(acc, B, hamB, variant + ":converted", action=False)
     return sc0
 
 
@@ -547,6 +575,76 @@ def _os_secular_twin(acc, sysd, cfg, T, ham, variant):
            TI.worst(TI.hermiticity_defect(pre))[0] <= RTOL * sc)
     _secular_oracle(acc, pre, post, okp, variant, "OpenSystem(secular_relaxation=True)",
                     "site" if lind else "ebH", exact=False)
+
+
+APPLY_CTX = {"thorough": ("site", "ebH", "ebXr", "ebXc"), "quick": ("site", "ebH", "ebXc")}
+
+
+def _apply_elements(T, dim, copy_flag):
+    """R[a,b,c,d] = (T.apply(|c><d|))[a,b] in the CURRENT basis: the operator |c><d| is created,
+    the generator applied through its public apply() and the result read inside the current
+    context.  The matrix units are a complete basis of all operators and apply() is linear, so
+    what holds for R holds for the action on any operator."""
+    from quantarhei.qm import Operator
+    R = numpy.zeros((dim,) * 4, dtype=numpy.complex128)
+    same = True
+    for c in range(dim):
+        for d in range(dim):
+            E = numpy.zeros((dim, dim), dtype=numpy.complex128)
+            E[c, d] = 1.0
+            op = Operator(data=E)
+            with isolation.quiet():
+                res = T.apply(op, copy=copy_flag)
+            same = same and ((res is op) == (not copy_flag))
+            out = numpy.asarray(res.data)
+            if out.shape != (dim, dim):
+                return None, same, out.shape
+            R[:, :, c, d] = out
+    return R, same, None
+
+
+def _apply_check(acc, T, dim, variant, ctx, tensor_of):
+    """ACTION of the generator, called INSIDE the context `ctx`: the object (tensor form or
+    operator form, time independent) acts through apply() on the complete matrix-unit basis,
+    with and without copying the argument.  The elements R[a,b,c,d] = apply(|c><d|)[a,b] must
+    satisfy both identities (class R) and equal the tensor of the same object read in the same
+    context: tensor_of() returns it (for an operator form it converts the object first, so all
+    apply() calls are made before)."""
+    from quantarhei.core.time import TimeDependent
+    if isinstance(T, TimeDependent) or not acc.apply_on or ctx not in APPLY_CTX[acc.tier]:
+        return
+    was_ops = bool(T.as_operators)
+    got = []
+    for cp in (1, 0):
+        R, same, shp = _apply_elements(T, dim, bool(cp))
+        acc.n["applies"] += dim * dim
+        read = "apply(copy=%d)@%s" % (cp, ctx)
+        if R is None:
+            acc.add("apply-shape/%s/read=%s" % (variant, read),
+                    "apply() returned data of shape %s for a %dx%d operator" % (shp, dim, dim))
+            continue
+        if not same:
+            acc.add("apply-copy-flag/%s/read=%s" % (variant, read),
+                    "apply(copy=%s) returned %s" % (bool(cp), "the argument itself" if cp
+                                                    else "another object"))
+        _ids(acc, R, variant, read, prefix="apply-")
+        got.append((cp, R))
+    Rt = numpy.asarray(tensor_of())
+    for cp, R in got:
+        fin = TI.finite(R) and TI.finite(Rt) and R.shape == Rt.shape
+        sc = max(TI.scale(Rt), TI.scale(R)) if fin else 0.0
+        dev = float(numpy.max(numpy.abs(R - Rt))) if fin else float("inf")
+        if dev <= RTOL * sc:
+            acc.rel("apply-vs-tensor", dev, sc)
+        else:
+            i = numpy.unravel_index(int(numpy.argmax(numpy.abs(R - Rt))), R.shape) if fin else None
+            acc.add("apply-differs-from-tensor/%s/ctx=%s/copy=%d" % (variant, ctx, cp),
+                    "apply() of the %s form differs from the action of the %stensor of the same "
+                    "object: apply(|c><d|)[a,b] - R[a,b,c,d] = %.3g at a,b,c,d = %s, max|R| %.3g "
+                    "(%s, context %s, copy=%s)"
+                    % ("operator" if was_ops else "tensor", "converted " if was_ops else "",
+                       dev, [int(x) for x in i] if i is not None else None, sc, variant, ctx,
+                       bool(cp)), {"worst": dev, "scale": sc})
 
 
 def _eval_cfg(acc, sysd, cfg):
@@ -578,6 +676,7 @@ def _eval_cfg(acc, sysd, cfg):
     if cfg["via"] == "direct" and "proj" not in cfg and own and not cfg.get("ccut") \
             and not T.as_operators:
         _recompute(acc, sysd, cfg, T, variant)
+    acc.apply_on = not cfg.get("noapply")
     if T.as_operators:
         return _flow_operators(acc, sysd, cfg, T, ham, variant)
     return _flow_tensor(acc, T, ham, variant)
@@ -610,7 +709,173 @@ def _recompute(acc, sysd, cfg, T, variant):
                 "calculation by %.3g (scale %.3g)" % (dev, sc), None)
 
 
-def _lindblad_cfgs(proj):
+# --------------------------------------------------------------------------
+# history: a second request on the same built system
+# --------------------------------------------------------------------------
+NT_REQ = 40             # time axis of the systems of the section "requests"
+
+
+def _os_request(agg, ta, cfg, rc, api="tensor"):
+    """One request to a built system with ALL options of the configuration and the
+    `recalculate` flag, through get_RelaxationTensor or through the propagator factory (the
+    tensor is then the one the returned propagator works with)."""
+    kw = dict(relaxation_theory=cfg["theory"], time_dependent=bool(cfg.get("td")),
+              secular_relaxation=bool(cfg.get("sec")),
+              relaxation_cutoff_time=0.5 * ta.length * DT if cfg.get("cutoff") else None,
+              coupling_cutoff=_ccut_internal() if cfg.get("ccut") else None,
+              recalculate=bool(rc))
+    if "proj" not in cfg:
+        kw["as_operators"] = bool(cfg.get("ops"))
+    if api == "propagator":
+        prop = agg.get_ReducedDensityMatrixPropagator(ta, **kw)
+        return prop.RelaxationTensor
+    if api != "tensor":
+        raise isolation.HarnessError("api %r" % (api,))
+    T, _h = agg.get_RelaxationTensor(ta, **kw)
+    return T
+
+
+def _kind(T):
+    ops = bool(T.as_operators)
+    return [type(T).__name__, ops, None if ops else list(numpy.shape(T.data))]
+
+
+def _snapshot(T):
+    if T.as_operators:
+        return [numpy.array(x, copy=True) for x in (T.Km, T.Lm, T.Ld)]
+    return [numpy.array(T.data, copy=True)]
+
+
+_SINGLE = {}
+
+
+def _single(sysd, cfg):
+    """What ONE request with these options gives on a fresh system (the meaning of the options;
+    checked on its own by the sections bath / lindblad): kind and site-basis tensor (operator
+    forms converted in the site basis), or the signature of an unsupported combination.
+    A pure function of (system, configuration): kept per worker."""
+    import json
+    key = json.dumps([sysd, cfg], sort_keys=True)
+    if key not in _SINGLE:
+        if len(_SINGLE) > 200:
+            _SINGLE.clear()
+        try:
+            T, _h = _build(sysd, cfg)
+        except isolation.HarnessError:
+            raise
+        except Exception as e:
+            sig = _unbuildable(sysd, cfg, e)
+            if sig is None:
+                raise
+            _SINGLE[key] = {"unbuildable": sig}
+        else:
+            kind = _kind(T)
+            if T.as_operators:
+                T.convert_2_tensor()
+            _SINGLE[key] = {"unbuildable": None, "kind": kind,
+                            "site": numpy.array(T.data, copy=True)}
+    return _SINGLE[key]
+
+
+def _eval_requests(acc, case):
+    """Two requests, one after the other, to ONE built system; the tensor the SECOND request
+    returns must have the properties of the options of THAT request: both identities in the site
+    basis and in eigenbasis_of(H), the secular clause (against a non-secular twin) when it asked
+    for secular relaxation, kind (class, representation, time dependence) and elements of the
+    tensor a single request with the same options gives on a fresh system (class R).  The tensor
+    of the first request is not changed by the second one."""
+    sysd, c1, c2 = case["sys"], case["first"], case["second"]
+    rc1, rc2 = case["rc"]
+    api = case["api"]
+    v1, v2 = _variant(c1), _variant(c2)
+    variant = "%s<<second-request:recalculate=%d:api=%s:after:%s:recalculate=%d" % (
+        v2, rc2, api, v1, rc1)
+    lind = "proj" in c1
+    acc.label = ""
+    if lind:
+        acc.label = " {projectors |i><j| %s, rates %s}" % ([list(p) for p in c1["proj"]],
+                                                           c1["rates"])
+    ta, agg = _system(sysd, with_bath=not lind)
+    ham = agg.get_Hamiltonian()
+    if lind:
+        agg.set_SystemBathInteraction(_lindblad_sbi(ham.dim, c1))
+
+    def request(cfg, rc, a, which):
+        try:
+            return _os_request(agg, ta, cfg, rc, a)
+        except isolation.HarnessError:
+            raise
+        except Exception as e:
+            sig = _unbuildable(sysd, cfg, e)
+            if sig is None:
+                raise
+            acc.unbuildable[sig] = acc.unbuildable.get(sig, 0) + 1
+            acc.digest.append([variant, which + "-unbuildable", sig])
+            return None
+    T1 = request(c1, rc1, "tensor", "first")
+    if T1 is None:
+        return None
+    kind1, snap1 = _kind(T1), _snapshot(T1)
+    T2 = request(c2, rc2, api, "second")
+    if T2 is None:
+        return None
+    acc.n["tensors"] += 2
+    acc.n["second_requests"] += 1
+    # the first tensor, as its holder sees it after the second request
+    if _kind(T1) != kind1:
+        acc.add("first-request-tensor-changed/kind/%s" % variant,
+                "the tensor returned by the first request changed its kind %s -> %s during the "
+                "second request" % (kind1, _kind(T1)))
+    else:
+        for a, b in zip(snap1, _snapshot(T1)):
+            sc = TI.scale(a)
+            if a.shape != b.shape or not TI.finite(b) or \
+                    float(numpy.max(numpy.abs(a - b))) > RTOL * sc:
+                acc.add("first-request-tensor-changed/data/%s" % variant,
+                        "the tensor returned by the first request was changed by the second "
+                        "request (max change %.3g, scale %.3g)"
+                        % (float(numpy.max(numpy.abs(a - b))) if a.shape == b.shape
+                           else float("inf"), sc))
+                break
+    single = _single(sysd, c2)
+    if single["unbuildable"]:
+        acc.add("second-request-returned-tensor-for-refused-options/%s" % variant,
+                "the second request returned a tensor %s for an option combination a single "
+                "request refuses (%s)" % (_kind(T2), single["unbuildable"]))
+        return 0.0
+    kind2 = _kind(T2)
+    if kind2 != single["kind"]:
+        acc.add("second-request-kind/%s" % variant,
+                "the second request returned [class, operator form, shape] = %s, a single "
+                "request with the same options gives %s" % (kind2, single["kind"]))
+    if c2.get("sec") and not T2.as_operators:
+        _os_secular_twin(acc, sysd, c2, T2, ham, variant)
+    if T2.as_operators:
+        T2.convert_2_tensor()
+    R0 = numpy.array(T2.data, copy=True)
+    _ok_t, _ok_h, site_sig = _ids(acc, R0, variant, "site")
+    with _ctx("ebH", ham):
+        _ids(acc, numpy.array(T2.data, copy=True), variant, "ebH", site_sig)
+    ref = single["site"]
+    sc = max(TI.scale(ref), TI.scale(R0) if TI.finite(R0) else 0.0)
+    if R0.shape != ref.shape or not TI.finite(R0):
+        dev = float("inf")
+    else:
+        dev = float(numpy.max(numpy.abs(R0 - ref)))
+    if dev <= RTOL * sc:
+        acc.rel("second-request-vs-single", dev, sc)
+    else:
+        acc.add("second-request-differs-from-single-request/%s" % variant,
+                "the tensor returned by the second request differs from the tensor a single "
+                "request with the same options gives on a fresh system: max |difference| %.3g, "
+                "max|R| %.3g (shapes %s / %s)" % (dev, sc, list(R0.shape), list(ref.shape)),
+                {"worst": dev, "scale": sc})
+    acc.digest.append([variant, list(R0.shape), round(TI.scale(R0), 12),
+                       round(float(numpy.sum(numpy.abs(R0))), 10)])
+    return TI.scale(R0)
+
+
+def _lindblad_cfgs(proj, tier="thorough"):
     out = []
     for rates in itertools.product(RATES, repeat=len(proj)):
         base = {"proj": proj, "rates": list(rates)}
@@ -627,12 +892,16 @@ def eval_case(case):
     acc.tier = case.get("tier", "thorough")
     sysd = case["sys"]
     if case["kind"] == "lindblad":
-        cfgs = _lindblad_cfgs([tuple(p) for p in case["proj"]])
+        cfgs = _lindblad_cfgs([tuple(p) for p in case["proj"]], acc.tier)
+    elif case["kind"] == "requests":
+        cfgs = []
     else:
         cfgs = [case["cfg"]]
     scales = []
     for cfg in cfgs:
         scales.append(_eval_cfg(acc, sysd, cfg))
+    if case["kind"] == "requests":
+        scales.append(_eval_requests(acc, case))
     isolation.reset_manager()
     built = [s for s in scales if s is not None]
     nontrivial = bool(built) and max(built) > 0.0
@@ -761,8 +1030,51 @@ def cases(tier):
             for s in sets:
                 cs.append({"kind": "lindblad", "tier": tier, "sys": {"n": n, "en": en, "J": J},
                            "proj": [list(p) for p in s]})
+    cs += _request_cases(tier)
     # simplest first: size, then cheap configurations first inside one size
-    cs.sort(key=lambda c: (c["sys"]["n"], {"bath": 0, "bare": 1}.get(c["kind"], 2)))
+    cs.sort(key=lambda c: (c["sys"]["n"], {"bath": 0, "bare": 1, "lindblad": 2}.get(c["kind"], 3)))
+    return cs
+
+
+def _request_cases(tier):
+    """Section "requests": system x ordered pair (first request, second request) of OpenSystem
+    configurations x recalculate flag of each request x route of the second request."""
+    quick = tier == "quick"
+    cs = []
+    os_cfgs = [c for c in _tensor_cfgs() if c["via"] == "os"]
+    if quick:       # quick bound: theories x (time_dependent, secular, as_operators), no cut-offs
+        os_cfgs = [c for c in os_cfgs if not c["cutoff"] and not c["ccut"]]
+    rcs = [(1, 1), (1, 0)] if quick else [(1, 1), (1, 0), (0, 1), (0, 0)]
+    apis = ["tensor"] if quick else ["tensor", "propagator"]
+    bath = _baths(tier)[0]
+    for n in ((2,) if quick else (2, 3)):
+        sysd = {"n": n, "en": "distinct", "J": "nn" if n == 2 else "all", "bath": bath,
+                "bathmode": "same", "nt": NT_REQ}
+        for c1 in os_cfgs:
+            for c2 in os_cfgs:
+                for rc in rcs:
+                    for api in apis:
+                        cs.append({"kind": "requests", "tier": tier, "sys": sysd, "first": c1,
+                                   "second": c2, "rc": list(rc), "api": api})
+    # Lindblad theories of OpenSystem (rates instead of a bath)
+    lth = [{"via": "os", "theory": th, "sec": sec, "ops": 1 - sec}
+           for th in ("Lindblad_form", "electronic_Lindblad") for sec in (0, 1)]
+    for n in ((2,) if quick else (2, 3)):
+        d = n + 1
+        projs = [(i, j) for i in range(d) for j in range(d)]
+        sets = [[p] for p in projs]
+        if not quick and n == 2:
+            sets += [list(c) for c in itertools.combinations(projs, 2)]
+        sysd = {"n": n, "en": "distinct", "J": "all" if n > 2 else "nn"}
+        for s_ in sets:
+            base = {"proj": [list(p) for p in s_], "rates": list(RATES[:len(s_)])}
+            for c1 in lth:
+                for c2 in lth:
+                    for rc in rcs:
+                        for api in apis:
+                            cs.append({"kind": "requests", "tier": tier, "sys": sysd,
+                                       "first": dict(c1, **base), "second": dict(c2, **base),
+                                       "rc": list(rc), "api": api})
     return cs
 
 
@@ -775,8 +1087,15 @@ def run(run):
                 "options, direct constructors x options); section lindblad: size x Hamiltonian x "
                 "every set of <=2 projectors |i><j|, inside a case every rate assignment x form; "
                 "for every tensor: every element and time index, 6+ reads in 4 bases, every "
-                "secularisation implementation in 4 contexts; non-trivial = tensor built and "
-                "max|R| > 0")
+                "secularisation implementation in 4 contexts; for every time independent tensor "
+                "(both representations) the action through apply() on all matrix units x copy flag "
+                "x contexts %s; section requests: system x ordered pair of OpenSystem "
+                "configurations x recalculate flags %s x route %s of the second request on ONE "
+                "built system (properties of the second tensor = those of the options of the "
+                "second request); non-trivial = tensor built and max|R| > 0"
+                % (list(APPLY_CTX[run.tier]),
+                   "(second request)" if run.tier == "quick" else "(both requests)",
+                   ["tensor"] if run.tier == "quick" else ["tensor", "propagator"]))
     run.assumptions = [
         "oracle: the two tensor identities and the definition of the secular projection "
         "(mc/refmodels/tensor_identities.py), class R tolerance 1e-10*max|R| over the whole "
@@ -786,7 +1105,19 @@ def run(run):
         "secularised last with its default call",
         "post-secular identities are demanded only when the pre-secular tensor satisfied them",
         "option combinations listed in _unbuildable are excluded and counted; any other "
-        "library exception is a crash violation"]
+        "library exception is a crash violation",
+        "action through apply(): time independent tensors only (apply() of a time dependent "
+        "operator form raises ValueError, of a time dependent tensor form it returns an Operator "
+        "holding a 3-index array: no per-time action is defined by the package); the operator "
+        "|c><d| is created inside the context in which apply() is called; quick: contexts "
+        "site / eigenbasis_of(H) / eigenbasis_of(complex Hermitian X)",
+        "section requests: both requests carry ALL options explicitly; the reference for the "
+        "second tensor is a single request with the same options on a fresh system of the same "
+        "description (cached per worker; its own properties are decided by the sections bath / "
+        "lindblad); systems: one heterodimer (thorough: and one trimer), first bath, time axis of "
+        "%d points; quick: no cut-off options, recalculate of the first request True, route "
+        "get_RelaxationTensor; a first request that hits an unsupported combination ends the "
+        "case (counted): what a failed request leaves behind is not claimed" % NT_REQ]
     cs = cases(run.tier)
     run.bounds = {"nsites": "1..3" if run.tier == "quick" else "1..4",
                   "bare_states": "2..3" if run.tier == "quick" else "2..4", "Nt": NT,
@@ -795,7 +1126,10 @@ def run(run):
                   "tensor_configurations": len(_tensor_cfgs()),
                   "lindblad_projector_sets": "all subsets of size<=2 of the d^2 projectors",
                   "rates": list(RATES), "coupling_cutoff_cm": CCUT_CM,
-                  "cutoff_time_fs": 0.5 * NT * DT, "tolerance_R": RTOL}
+                  "cutoff_time_fs": 0.5 * NT * DT, "tolerance_R": RTOL,
+                  "apply_contexts": list(APPLY_CTX[run.tier]), "apply_copy": [True, False],
+                  "request_pairs": sum(1 for c in cs if c["kind"] == "requests"),
+                  "request_Nt": NT_REQ}
     infos = run_grid(run, cs, eval_case)
     worst = {}
     counts = {}
